@@ -5,6 +5,14 @@
 //!  b  every role × every reserved/built-in word of HLSL and MSL that the front end accepts in that role
 //!  c  names x, x_0, x_1 (… ) in all assignments to 3 symbols × contexts (overloads, namespaces, local/global, …)
 //!  d  verbatim: ordinary names unique in their scope are emitted unchanged
+//!  e  shadowed references: entity kind × kind of a nearer declaration of the same name (member of an enclosing namespace,
+//!     parameter, local, struct member, method, template parameter) × every written form of both references (`::x`, `x`,
+//!     `N::x`, `::N::x`) × all assignments of {x, x_0, …} to the two names; the renamed source is certified to be a renaming
+//!     by a reference scoping model on the source trees, then the pair oracle applies without consulting the front end
+//!  b and d additionally run over every kind of user type (struct, enum, typedef) × every position in which a type is
+//!  written (local, parameter, return, template argument explicit / deduced / repeated / from a function / mentioned in the
+//!  instantiation, buffer element, member, global, cast, sizeof, array, method signature, typedef source, for-init) ×
+//!  placement (root, namespace, used from a sibling in the namespace)
 //!
 //! One oracle ("pair oracle") serves all spaces: a baseline program B (distinctive unique names) and a renamed program R
 //! are compiled for one target; the emitted texts must be equal token by token outside tokens derived from the renamed
@@ -14,7 +22,9 @@
 //! HLSL text must still be accepted by the rssl front end.
 //!
 //! Signatures: rename|alpha|<role>|<target>, reserved|<hlsl|msl>|<role>|<category>, clash|<kind+kind>|<target>,
-//! not-verbatim|<role>|<target>, use-rebound|<role>|<target>, reject|<role>|<target>, panic|…
+//! not-verbatim|<role>|<target>, use-rebound|<role>|<target>, reject|<role>|<target>, rename|rejected|<role>|<target>, panic|…
+//! (space e roles: shadowed-by-namespace-member, shadowed-by-local-or-parameter, shadowed-by-struct-member,
+//! shadowed-by-template-parameter)
 
 use crate::engine::*;
 use crate::json::{Json, obj};
@@ -249,6 +259,27 @@ fn tokens(text: &str) -> Vec<&str> {
             }
         }
         out.push(&text[s..i]);
+    }
+    out
+}
+
+/// The token view that is compared: a `::` that starts a path (root anchor) is left out, so an exporter may anchor a path
+/// exactly when the names in scope make that necessary without the outputs counting as different
+fn tokens_unanchored(text: &str) -> Vec<&str> {
+    let toks = tokens(text);
+    let mut out: Vec<&str> = Vec::with_capacity(toks.len());
+    let mut i = 0;
+    while i < toks.len() {
+        if toks[i] == ":" && i + 1 < toks.len() && toks[i + 1] == ":" {
+            let prev = out.iter().rev().find(|t| !t.as_bytes()[0].is_ascii_whitespace()).copied();
+            let qualifies = prev.map(|t| is_ident_token(t) || t == ">").unwrap_or(false) && out.last().map(|t| !t.as_bytes()[0].is_ascii_whitespace()).unwrap_or(false);
+            if !qualifies {
+                i += 2;
+                continue;
+            }
+        }
+        out.push(toks[i]);
+        i += 1;
     }
     out
 }
@@ -784,6 +815,30 @@ impl An {
         out
     }
 
+    /// The exporters only emit instantiations: a type parameter in the header of one that carries the name of a struct
+    /// visible from outside the function is a placeholder for exactly that struct, so a use bound to the placeholder and a
+    /// use bound to the struct refer to one entity
+    pub fn canonical(&self, res: &[usize]) -> Vec<usize> {
+        let mut out: Vec<usize> = res
+            .iter()
+            .map(|d| {
+                let decl = &self.decls[*d];
+                if decl.kind == K::TemplateParam {
+                    if let Some(outer) = self.scopes[decl.scope].parent {
+                        let found = self.lookup(outer, &decl.name);
+                        if found.len() == 1 && self.decls[found[0]].kind == K::Struct {
+                            return found[0];
+                        }
+                    }
+                }
+                *d
+            })
+            .collect();
+        out.sort();
+        out.dedup();
+        out
+    }
+
     pub fn describe(&self, d: usize) -> String {
         format!("{} `{}` in {}", self.decls[d].kind.name(), self.decls[d].name, self.scopes[self.decls[d].scope].label)
     }
@@ -878,6 +933,12 @@ pub struct Pair<'a> {
     pub mode: &'a Mode,
     /// where the chosen names come from: "plain", "reserved-word", "generator-name", "other-word" (part of clash signatures)
     pub origin: &'a str,
+    /// the renamed source was certified to be a renaming of the baseline by the reference scoping model (`certify`) and uses
+    /// no word that is built in to rssl: the front end's own binding is then not consulted to excuse a difference, and a
+    /// rejection of the renamed program is a violation
+    pub certified: bool,
+    /// free text that identifies the case within its space (details and replays only)
+    pub note: &'a str,
 }
 
 pub struct Lists {
@@ -903,7 +964,7 @@ fn mode_name(m: &Mode) -> String {
 }
 
 fn replay_body(p: &Pair) -> String {
-    let mut s = format!("kind: pair\nspace: {}\nrole: {}\norigin: {}\ntarget: {}\nmode: {}\nstrict: {}\n", p.space, p.role, p.origin, p.cfg.name(), mode_name(p.mode), p.strict.name());
+    let mut s = format!("kind: pair\nspace: {}\nrole: {}\norigin: {}\ntarget: {}\nmode: {}\nstrict: {}\ncertified: {}\nnote: {}\n", p.space, p.role, p.origin, p.cfg.name(), mode_name(p.mode), p.strict.name(), p.certified, p.note);
     for (k, v) in p.map {
         s.push_str(&format!("map: {}={}\n", k, v));
     }
@@ -975,6 +1036,9 @@ fn source_shape(src: &str, map: &[(String, String)]) -> Option<String> {
                 );
             }
             let _ = writeln!(s, "{:?}\n{:?}\n{:?}\n{:?}\n{:?}", m.struct_registry, m.cbuffer_registry, m.variable_registry, m.root_definitions, m.pipelines);
+            // type ids are registration-order indices: two programs that differ only in WHICH type the n-th registered type
+            // is (typedef int bool; ... bool ... binds the built-in) are told apart by the registered types themselves
+            let _ = writeln!(s, "{:?}", m.type_registry);
             for g in m.global_registry.iter().filter(|g| !g.is_intrinsic) {
                 let _ = writeln!(s, "{:?}", g);
             }
@@ -1030,7 +1094,17 @@ pub fn check_pair(p: &Pair, base_out: &Out, base_an: &An, base_accepted_by_front
     let tname = target_name(p.cfg);
     let ren_out = match compile_out(p.ren, p.cfg, p.mode) {
         Comp::Ok(o) => o,
-        Comp::Rejected(_) => return Verdict::Outside,
+        Comp::Rejected(e) => {
+            if p.certified {
+                acc.violation(Violation {
+                    signature: format!("rename|rejected|{}|{}", p.role, tname),
+                    detail: format!("[{} space {} ({})] renaming {:?}: the baseline is accepted and the renamed program binds every name alike under lexical scoping, but it is rejected: {}", p.cfg.name(), p.space, p.note, p.map, one_line(&e, 240)),
+                    replay: replay_body(p),
+                });
+                return Verdict::Violated;
+            }
+            return Verdict::Outside;
+        }
         Comp::Panic(pi) => {
             // a program on which the compiler panics is not an accepted program (totality is property C08)
             acc.count(&format!("outside_{}", pi.signature()));
@@ -1042,8 +1116,8 @@ pub fn check_pair(p: &Pair, base_out: &Out, base_an: &An, base_accepted_by_front
     let chosen: Vec<String> = p.map.iter().map(|(_, v)| v.clone()).collect();
 
     // 1. text: equal token by token outside tokens derived from the renamed names
-    let tb = tokens(&base_out.text);
-    let tr = tokens(&ren_out.text);
+    let tb = tokens_unanchored(&base_out.text);
+    let tr = tokens_unanchored(&ren_out.text);
     let mut image: BTreeMap<&str, &str> = BTreeMap::new();
     let mut text_ok = true;
     if tb.len() != tr.len() {
@@ -1169,6 +1243,7 @@ pub fn check_pair(p: &Pair, base_out: &Out, base_an: &An, base_accepted_by_front
         } else {
             // 3a. clashes first: a use that now sees two declarations is the same finding
             let base_clashes: BTreeSet<(usize, usize)> = ab.clashes().into_iter().filter(|(x, y)| matches!(ab.decls[*x].kind, K::Function | K::Method) && matches!(ab.decls[*y].kind, K::Function | K::Method)).collect();
+            let base_all_clashes: BTreeSet<(usize, usize)> = ab.clashes().into_iter().collect();
             let mut seen_clash = BTreeSet::new();
             for (x, y) in ar.clashes() {
                 // overload sets that the generator itself emits for one source entity are present in the baseline as well
@@ -1177,14 +1252,16 @@ pub fn check_pair(p: &Pair, base_out: &Out, base_an: &An, base_accepted_by_front
                 }
                 let mut kinds = [ar.decls[x].kind.name(), ar.decls[y].kind.name()];
                 kinds.sort();
-                let sig = format!("clash|{}+{}|{}|{}", kinds[0], kinds[1], tname, p.origin);
+                // two declarations that share a name in the baseline output as well do so whatever the names are
+                let origin = if base_all_clashes.contains(&(x, y)) { "any-name" } else { p.origin };
+                let sig = format!("clash|{}+{}|{}|{}", kinds[0], kinds[1], tname, origin);
                 if seen_clash.insert(sig.clone()) {
                     pending.push((sig, format!("{} {:?}: {} and {} share a name in one scope", p.role, p.map, ar.describe(x), ar.describe(y)), true));
                 }
             }
             if !reserved_hit && seen_clash.is_empty() {
                 for (ub, ur) in ab.uses.iter().zip(ar.uses.iter()) {
-                    if ub.res != ur.res {
+                    if ub.res != ur.res && ab.canonical(&ub.res) != ar.canonical(&ur.res) {
                         let d = |a: &An, r: &Vec<usize>| if r.is_empty() { "nothing declared in the module (built-in)".to_string() } else { r.iter().map(|x| a.describe(*x)).collect::<Vec<_>>().join(" / ") };
                         pending.push((
                             format!("use-rebound|{}|{}", p.role, tname),
@@ -1222,7 +1299,7 @@ pub fn check_pair(p: &Pair, base_out: &Out, base_an: &An, base_accepted_by_front
     }
 
     // alarms that rest on "R binds like B" are dropped when the front end itself binds R differently
-    if pending.iter().any(|x| x.2) && !same_source_binding(p) {
+    if !p.certified && pending.iter().any(|x| x.2) && !same_source_binding(p) {
         acc.count("front_end_binds_renamed_source_differently");
         if std::env::var("C15_SHOW_FILTERED").is_ok() {
             eprintln!("FILTERED {} {} {:?} {}", p.role, p.cfg.name(), p.map, pending.iter().filter(|x| x.2).map(|x| format!("{} :: {}", x.0, one_line(&x.1, 200))).collect::<Vec<_>>().join(" ## "));
@@ -1237,7 +1314,8 @@ pub fn check_pair(p: &Pair, base_out: &Out, base_an: &An, base_accepted_by_front
         return Verdict::Held;
     }
     for (sig, detail, _) in pending {
-        acc.violation(Violation { signature: sig, detail: format!("[{} space {}] {}", p.cfg.name(), p.space, detail), replay: replay_body(p) });
+        let note = if p.note.is_empty() { String::new() } else { format!(" ({})", p.note) };
+        acc.violation(Violation { signature: sig, detail: format!("[{} space {}{}] {}", p.cfg.name(), p.space, note, detail), replay: replay_body(p) });
     }
     Verdict::Violated
 }
@@ -1257,9 +1335,13 @@ fn prog(decls: &str, body: &str) -> String {
 
 pub struct Tpl {
     pub role: &'static str,
-    pub variant: &'static str,
+    pub variant: String,
     /// `@` marks the renamed identifier
     pub src: String,
+    /// a type-use position template (`type_position_templates`): the quick tier tries class representatives of the words only
+    pub extra: bool,
+    /// thorough tier only
+    pub deep: bool,
 }
 
 /// baseline name of the single renamed identifier in spaces b and d
@@ -1267,7 +1349,7 @@ const BASE: &str = "zq";
 
 fn role_templates() -> Vec<Tpl> {
     let mut v = Vec::new();
-    let mut t = |role: &'static str, variant: &'static str, src: String| v.push(Tpl { role, variant, src });
+    let mut t = |role: &'static str, variant: &'static str, src: String| v.push(Tpl { role, variant: variant.to_string(), src, extra: false, deep: false });
     // global variable
     t("global", "byte-buffer", prog("ByteAddressBuffer @;", "int r = (int)@.Load(0);"));
     t("global", "texture", prog("Texture2D<float4> @;", "int r = (int)@.Load(int3(0, 0, 0)).x;"));
@@ -1353,6 +1435,121 @@ fn role_templates() -> Vec<Tpl> {
     v
 }
 
+// ---------------------------------------------------------------------------------------------------------------
+// every kind of user-declared type × every position in which a type name is written × placement (root / namespace)
+// (added after a seeded change that declared the placeholder template parameter of an instantiation under the struct's
+// source name was missed: no template used a user type as a template argument)
+
+struct TyKind {
+    role: &'static str,
+    kind: &'static str,
+    /// declaration, `@` = the type's name
+    decl: &'static str,
+    /// statement(s) that give the variable `$` (of the type `#`) a value
+    init: &'static str,
+    /// int-valued expression reading `$`
+    toint: &'static str,
+    deep: bool,
+}
+
+const TY_KINDS: &[TyKind] = &[
+    TyKind { role: "struct", kind: "struct", decl: "struct @ { int hm; };", init: "$.hm = 1;", toint: "$.hm", deep: false },
+    TyKind { role: "enum", kind: "enum", decl: "enum @ { Ea, Eb };", init: "$ = #::Eb;", toint: "(int)$", deep: false },
+    TyKind { role: "typedef", kind: "typedef-int", decl: "typedef int @;", init: "$ = 1;", toint: "(int)$", deep: false },
+    TyKind { role: "struct", kind: "struct-with-method", decl: "struct @ { int hm; int hq() { return hm; } };", init: "$.hm = 1;", toint: "$.hq()", deep: true },
+    TyKind { role: "typedef", kind: "typedef-struct", decl: "struct Sb { int hm; };\ntypedef Sb @;", init: "$.hm = 1;", toint: "$.hm", deep: true },
+];
+
+/// (position, declarations after the type's declaration, body); `#` = the type as written at the use, `I(x)` / `V(x)` are
+/// expanded to the kind's init / toint of x
+const TY_POSITIONS: &[(&str, &str, &str)] = &[
+    ("local", "", "# hs; I(hs) int r = V(hs);"),
+    ("parameter", "int hf(# ha) { return V(ha); }", "# hs; I(hs) int r = hf(hs);"),
+    ("return", "# hf(int ha) { # hl; I(hl) return hl; }", "int r = V(hf(1));"),
+    ("out-parameter", "void hf(out # ha) { I(ha) }", "# hs; hf(hs); int r = V(hs);"),
+    ("template-argument-explicit", "template<typename Th> Th hf(Th ha) { return ha; }", "# hs; I(hs) int r = V(hf<#>(hs));"),
+    ("template-argument-deduced", "template<typename Th> Th hf(Th ha) { return ha; }", "# hs; I(hs) int r = V(hf(hs));"),
+    ("template-argument-two-instances", "template<typename Th> Th hf(Th ha) { return ha; }", "# hs; I(hs) int r = V(hf<#>(hs)) + hf<int>(2);"),
+    ("template-argument-second", "template<typename Ta, typename Tb> Tb hf(Ta ha, Tb hb) { return hb; }", "# hs; I(hs) int r = V(hf<int, #>(1, hs));"),
+    ("template-argument-from-function", "template<typename Th> Th hf(Th ha) { return ha; }\nint hg(# hb) { return V(hf<#>(hb)); }", "# hs; I(hs) int r = hg(hs);"),
+    ("template-argument-and-mention", "template<typename Th> int hf(Th ha) { # hl = ha; return V(hl); }", "# hs; I(hs) int r = hf<#>(hs);"),
+    ("template-argument-twice", "template<typename Ta, typename Tb> Ta hf(Ta ha, Tb hb) { return ha; }", "# hs; I(hs) int r = V(hf<#, #>(hs, hs));"),
+    ("structured-buffer-element", "StructuredBuffer<#> hb;", "int r = V(hb.Load(0));"),
+    ("rw-structured-buffer-element", "RWStructuredBuffer<#> hb;", "# hs = hb[0]; hb[1] = hs; int r = V(hs);"),
+    ("constant-buffer-element", "ConstantBuffer<#> hb;", "int r = V(hb);"),
+    ("struct-member-type", "struct So { # hi; int hn; };", "So ho; ho.hn = 1; I(ho.hi) int r = V(ho.hi);"),
+    ("cbuffer-member-type", "cbuffer Cq { # hc; }", "int r = V(hc);"),
+    ("static-global-type", "static # hg;", "I(hg) int r = V(hg);"),
+    ("groupshared-array-type", "groupshared # hg[2];", "I(hg[0]) int r = V(hg[0]);"),
+    ("local-array-type", "", "# ha[2]; I(ha[1]) int r = V(ha[1]);"),
+    ("cast", "", "# hs; I(hs) int r = V(((#)hs));"),
+    ("sizeof", "", "int r = (int)sizeof(#);"),
+    ("method-signature", "struct So { int hn; # hf(# ha) { return ha; } };", "# hs; I(hs) So ho; ho.hn = 1; int r = V(ho.hf(hs));"),
+    ("typedef-source", "typedef # Hd;", "Hd hs; I(hs) int r = V(hs);"),
+    ("for-init", "", "int r = 0; for (# hs; r < 1; ++r) { I(hs) r += V(hs); }"),
+];
+
+fn expand_calls(text: &str, k: &TyKind) -> String {
+    // I(x) / V(x): x never contains parentheses other than balanced ones
+    let mut out = String::new();
+    let b = text.as_bytes();
+    let mut i = 0;
+    while i < b.len() {
+        let call = (b[i] == b'I' || b[i] == b'V') && i + 1 < b.len() && b[i + 1] == b'(' && (i == 0 || !(b[i - 1].is_ascii_alphanumeric() || b[i - 1] == b'_'));
+        if call {
+            let mut depth = 0;
+            let mut j = i + 1;
+            loop {
+                if b[j] == b'(' {
+                    depth += 1;
+                } else if b[j] == b')' {
+                    depth -= 1;
+                    if depth == 0 {
+                        break;
+                    }
+                }
+                j += 1;
+            }
+            let arg = expand_calls(&text[i + 2..j], k);
+            let pat = if b[i] == b'I' { k.init } else { k.toint };
+            out.push_str(&pat.replace('$', &arg));
+            i = j + 1;
+        } else {
+            out.push(b[i] as char);
+            i += 1;
+        }
+    }
+    out
+}
+
+fn type_position_templates() -> Vec<Tpl> {
+    let mut v = Vec::new();
+    for (placement, deep_placement) in [("root", false), ("namespace", false), ("namespace-sibling", true)] {
+        for k in TY_KINDS {
+            for (pos, decls, body) in TY_POSITIONS {
+                let ty = if placement == "namespace" { "Nh::@" } else { "@" };
+                let fill = |t: &str| expand_calls(t, k).replace('#', ty);
+                let src = match placement {
+                    "root" => prog(&format!("{}\n{}", k.decl, fill(decls)), &fill(body)),
+                    "namespace" => prog(&format!("namespace Nh {{ {} }}\n{}", k.decl, fill(decls)), &fill(body)),
+                    _ => {
+                        // everything that mentions the type sits next to it inside the namespace and names it unqualified
+                        if decls.is_empty() || decls.contains("Buffer<") || decls.starts_with("cbuffer ") || decls.starts_with("static") || decls.starts_with("groupshared") {
+                            continue;
+                        }
+                        let body = fill(body).replace("hf(", "Nh::hf(").replace("hf<", "Nh::hf<").replace("hg(", "Nh::hg(").replace("So ", "Nh::So ").replace("Sw<", "Nh::Sw<").replace("Hd ", "Nh::Hd ").replace("@", "Nh::@").replace(".Nh::", ".");
+                        prog(&format!("namespace Nh {{ {}\n{} }}", k.decl, fill(decls)), &body)
+                    }
+                };
+                // the quick tier keeps the namespace placement for the template-argument positions only
+                let deep = k.deep || deep_placement || (placement == "namespace" && !pos.starts_with("template-"));
+                v.push(Tpl { role: k.role, variant: format!("{}/{}/{}", k.kind, pos, placement), src, extra: true, deep });
+            }
+        }
+    }
+    v
+}
+
 /// space c: three names, each from NAMES3, assigned to @1 @2 @3
 pub struct Ctx3 {
     pub name: &'static str,
@@ -1376,6 +1573,11 @@ fn contexts3() -> Vec<Ctx3> {
         Ctx3 { name: "enum-values", src: prog("enum Ea { @1, Eb };\nenum Ec { @2, Ed };\nint @3(int ha) { return ha; }", "int r = (int)Ea::@1 + (int)Ec::@2 + @3(1);"), differ: &[] },
         Ctx3 { name: "namespaced-structs", src: prog("namespace Na { struct @1 { int hm; }; }\nnamespace Nb { struct @2 { int hm; }; }\nstruct @3 { int hm; };", "Na::@1 ha; ha.hm = 1; Nb::@2 hb; hb.hm = 2; @3 hc; hc.hm = 3; int r = ha.hm + hb.hm + hc.hm;"), differ: &[] },
         Ctx3 { name: "cbuffer-members-vs-global", src: prog("cbuffer Ca { int @1; }\ncbuffer Cb { int @2; }\nstatic int @3 = 1;", "int r = @1 + @2 + @3;"), differ: &[(0, 1), (0, 2), (1, 2)] },
+        // user types as template arguments while their emitted names move (added after a seeded change in the placeholder
+        // template parameter of instantiations was missed)
+        Ctx3 { name: "struct-template-arguments", src: prog("struct @1 { int hm; };\nnamespace Na { struct @2 { int hm; }; }\ntemplate<typename Th> Th @3(Th ha) { return ha; }", "@1 ha; ha.hm = 1; Na::@2 hb; hb.hm = 2; int r = @3(ha).hm + @3<Na::@2>(hb).hm;"), differ: &[(0, 2)] },
+        Ctx3 { name: "struct-template-argument-vs-verbatim-names", src: prog("struct @1 { int hm; };\nenum Eh { @2, Eb };\ncbuffer Cq { int @3; }\ntemplate<typename Th> Th hf(Th ha) { return ha; }", "@1 hs; hs.hm = 1; int r = hf(hs).hm + hf<@1>(hs).hm + (int)@2 + @3;"), differ: &[(0, 1), (0, 2), (1, 2)] },
+        Ctx3 { name: "enum-template-argument-vs-verbatim-names", src: prog("enum @1 { Ea, Ec };\nenum Eh { @2, Eb };\ncbuffer Cq { int @3; }\ntemplate<typename Th> Th hf(Th ha) { return ha; }", "@1 hs = @1::Ec; int r = (int)hf(hs) + (int)hf<@1>(hs) + (int)@2 + @3;"), differ: &[(0, 1), (0, 2), (1, 2)] },
         Ctx3 { name: "locals-in-sibling-blocks", src: prog("int @1(int ha) { return 1; }\nint @1(float ha) { return 2; }\nint hf(int hb) { int hr = 0; { int @2 = hb; hr += @2; } { int @3 = hb; hr += @3 + @1((int)1); } return hr; }", "int r = hf(1) + @1(1.0f);"), differ: &[(2, 0)] },
     ]
 }
@@ -1388,6 +1590,150 @@ fn subst3(src: &str, names: [&str; 3]) -> String {
 
 /// space d: names that are certainly not reserved in either target and unique in the templates
 const PLAIN_NAMES: &[&str] = &["alpha", "Beta7", "_under", "x_0", "x_12", "a__b", "q", "mainFn", "Texture", "float5", "uint5x2", "cbuffer_", "q0", "Zq", "v_0_0", "kernel0", "deviceA", "l", "O0", "I1"];
+
+// ---------------------------------------------------------------------------------------------------------------
+// space e: a reference to an entity whose name is also declared in a scope nearer to the use (names shared between
+// namespaces, locals and globals), for every form in which the reference can be written
+// (added after a seeded change that resolved a bare `::name` from the current scope was missed: no program wrote an
+// absolute name, and no two scopes of one program shared a name that was referred to from the inner one)
+
+struct Ent {
+    kind: &'static str,
+    /// `@` = declared name, `%` = tag that keeps helper names of the two entities of a program apart
+    decl: &'static str,
+    /// statements before the use; `#` = the reference as written
+    pre: &'static str,
+    /// int-valued expression that uses the reference
+    val: &'static str,
+}
+
+const ENTS: &[Ent] = &[
+    Ent { kind: "function", decl: "int @(int ha) { return ha + %; }", pre: "", val: "#(1)" },
+    Ent { kind: "static-global", decl: "static int @ = %;", pre: "", val: "#" },
+    Ent { kind: "static-const-global", decl: "static const int @ = 1%;", pre: "", val: "#" },
+    Ent { kind: "resource-global", decl: "ByteAddressBuffer @;", pre: "", val: "(int)#.Load(%)" },
+    Ent { kind: "cbuffer-member", decl: "cbuffer Ch% { int @; }", pre: "", val: "#" },
+    Ent { kind: "struct", decl: "struct @ { int hm%; };", pre: "# hs%; hs%.hm% = %;", val: "hs%.hm%" },
+    Ent { kind: "enum", decl: "enum @ { Ea%, Eb% };", pre: "", val: "(int)#::Eb%" },
+    Ent { kind: "enum-value", decl: "enum Eh% { @, Ez% };", pre: "", val: "(int)#" },
+    Ent { kind: "typedef", decl: "typedef int @;", pre: "# ht% = %;", val: "ht%" },
+    Ent { kind: "template-function", decl: "template<typename Th> Th @(Th ha) { return ha + %; }", pre: "", val: "#<int>(1)" },
+    Ent { kind: "namespace", decl: "namespace @ { int hq%(int ha) { return ha + %; } }", pre: "", val: "#::hq%(1)" },
+];
+
+impl Ent {
+    fn decl(&self, name: &str, tag: &str) -> String {
+        self.decl.replace('@', name).replace('%', tag)
+    }
+    fn pre(&self, path: &str, tag: &str) -> String {
+        self.pre.replace('#', path).replace('%', tag)
+    }
+    fn val(&self, path: &str, tag: &str) -> String {
+        self.val.replace('#', path).replace('%', tag)
+    }
+}
+
+pub struct ShadowCase {
+    pub structure: &'static str,
+    pub label: String,
+    /// `@1` = the outer entity's name, `@2` = the name declared nearer to the use
+    pub src: String,
+}
+
+/// every structure × entity kind × kind of the nearer declaration × written form of both references
+fn shadow_cases() -> Vec<ShadowCase> {
+    let mut v = Vec::new();
+    // the nearer declaration is a member of an enclosing namespace, of any kind
+    for structure in ["namespace-member", "outer-namespace-member", "member-of-namespace-of-same-name"] {
+        let (refs1, refs2): (&[&str], &[&str]) = match structure {
+            "member-of-namespace-of-same-name" => (&["::Na::@1", "Na::@1"], &["Na::@2", "Nu::Na::@2", "::Nu::Na::@2"]),
+            _ => (&["::@1", "@1"], &["@2", "Nu::@2", "::Nu::@2"]),
+        };
+        for e in ENTS {
+            for sh in ENTS {
+                for r1 in refs1 {
+                    for r2 in refs2 {
+                        let hu = format!("int hu(int ha) {{ {} {} return {} + {}; }}", e.pre(r1, "1"), sh.pre(r2, "2"), e.val(r1, "1"), sh.val(r2, "2"));
+                        let (decls, call) = match structure {
+                            "namespace-member" => (format!("{}\nnamespace Nu {{ {}\n{} }}", e.decl("@1", "1"), sh.decl("@2", "2"), hu), "Nu::hu(1)"),
+                            "outer-namespace-member" => (format!("{}\nnamespace Nu {{ {}\nnamespace Nv {{ {} }} }}", e.decl("@1", "1"), sh.decl("@2", "2"), hu), "Nu::Nv::hu(1)"),
+                            _ => (format!("namespace Na {{ {} }}\nnamespace Nu {{ namespace Na {{ {} }}\n{} }}", e.decl("@1", "1"), sh.decl("@2", "2"), hu), "Nu::hu(1)"),
+                        };
+                        v.push(ShadowCase { structure, label: format!("{} `{}` / nearer {} `{}`", e.kind, r1, sh.kind, r2), src: prog(&decls, &format!("int r = {};", call)) });
+                    }
+                }
+            }
+        }
+    }
+    // the nearer declaration is a variable, a member, a method or a template parameter of the using function
+    for structure in ["parameter", "local", "later-local", "outer-block-local", "for-local", "struct-member", "method", "namespace-function-parameter", "entry-local", "template-type-parameter"] {
+        for e in ENTS {
+            for r1 in ["::@1", "@1"] {
+                let (pre, val) = (e.pre(r1, "1"), e.val(r1, "1"));
+                let d = e.decl("@1", "1");
+                let (decls, body) = match structure {
+                    "parameter" => (format!("{d}\nint hu(int @2) {{ {pre} return {val} + @2; }}"), "int r = hu(1);".to_string()),
+                    "local" => (format!("{d}\nint hu(int ha) {{ int @2 = ha; {pre} return {val} + @2; }}"), "int r = hu(1);".to_string()),
+                    "later-local" => (format!("{d}\nint hu(int ha) {{ {pre} int hr = {val}; int @2 = ha; return hr + @2; }}"), "int r = hu(1);".to_string()),
+                    "outer-block-local" => (format!("{d}\nint hu(int ha) {{ int @2 = ha; int hr = 0; {{ {pre} hr = {val} + @2; }} return hr; }}"), "int r = hu(1);".to_string()),
+                    "for-local" => (format!("{d}\nint hu(int ha) {{ int hr = 0; for (int @2 = 0; @2 < ha; ++@2) {{ {pre} hr += {val} + @2; }} return hr; }}"), "int r = hu(1);".to_string()),
+                    "struct-member" => (format!("{d}\nstruct Su {{ int @2; int hu(int ha) {{ {pre} return {val} + @2 + ha; }} }};"), "Su hv; hv.@2 = 1; int r = hv.hu(1);".to_string()),
+                    "method" => (format!("{d}\nstruct Su {{ int hn; int @2(int ha) {{ return ha + hn; }} int hu(int ha) {{ {pre} return {val} + @2(ha); }} }};"), "Su hv; hv.hn = 1; int r = hv.hu(1);".to_string()),
+                    "namespace-function-parameter" => (format!("{d}\nnamespace Nu {{ int hu(int @2) {{ {pre} return {val} + @2; }} }}"), "int r = Nu::hu(1);".to_string()),
+                    "entry-local" => (d.clone(), format!("int @2 = 1; {pre} int r = {val} + @2;")),
+                    _ => (format!("{d}\ntemplate<typename @2> @2 hu(@2 ha) {{ {pre} return ha + (@2)({val}); }}"), "int r = hu<int>(1);".to_string()),
+                };
+                v.push(ShadowCase { structure, label: format!("{} `{}`", e.kind, r1), src: prog(&decls, &body) });
+            }
+        }
+    }
+    v
+}
+
+/// signature class of a structure: one per kind of scope that holds the nearer declaration (one repair each)
+fn shadow_class(structure: &str) -> &'static str {
+    match structure {
+        "namespace-member" | "outer-namespace-member" | "member-of-namespace-of-same-name" => "namespace-member",
+        "struct-member" | "method" => "struct-member",
+        "template-type-parameter" => "template-parameter",
+        _ => "local-or-parameter",
+    }
+}
+
+const BASE2: [&str; 2] = ["zqa", "zqb"];
+
+fn subst2(src: &str, names: [&str; 2]) -> String {
+    src.replace("@1", names[0]).replace("@2", names[1])
+}
+
+/// Reference scoping model applied to the two SOURCE programs: the renamed program is a renaming of the baseline iff
+/// the trees have one shape, every use resolves (ordinary lexical scoping, `::` anchors at the root) to the same
+/// declaration in both and the renaming puts no two declarations of one scope under one name
+fn certify(base: &str, ren: &str) -> Result<(), String> {
+    let parse = |s: &str| match guard(|| parse_src(s)) {
+        Ok(Ok(m)) => Ok(m),
+        Ok(Err(_)) => Err("does not parse".to_string()),
+        Err(_) => Err("parser panic".to_string()),
+    };
+    let (mb, mr) = (parse(base)?, parse(ren)?);
+    let (ab, ar) = (An::of(&mb), An::of(&mr));
+    if ab.decls.len() != ar.decls.len() || ab.uses.len() != ar.uses.len() || !ab.decls.iter().zip(ar.decls.iter()).all(|(x, y)| x.kind == y.kind && x.scope == y.scope) {
+        return Err("different shape".into());
+    }
+    let cb: BTreeSet<(usize, usize)> = ab.clashes().into_iter().collect();
+    if ar.clashes().into_iter().any(|c| !cb.contains(&c)) {
+        return Err("two declarations of one scope share a name".into());
+    }
+    for (ub, ur) in ab.uses.iter().zip(ar.uses.iter()) {
+        if ub.res != ur.res {
+            return Err("a use binds differently".into());
+        }
+        if ub.res.is_empty() && ub.path != ur.path {
+            return Err("a use of an undeclared name".into());
+        }
+    }
+    Ok(())
+}
 
 // ---------------------------------------------------------------------------------------------------------------
 // space a: generated core, `$key$` = name unique per feature, `$~key$` = nested name (shared between features in scheme 1)
@@ -1609,7 +1955,8 @@ pub fn run(ctx: &Ctx) -> i32 {
     let cfgs = cfgs(ctx);
     let mode = Mode::All;
     let words = candidate_words();
-    let tpls = role_templates();
+    let mut tpls = role_templates();
+    tpls.extend(type_position_templates().into_iter().filter(|t| !ctx.quick() || !t.deep));
     let dump = std::env::var("C15_DUMP").is_ok();
 
     // baselines of the role templates
@@ -1649,7 +1996,7 @@ pub fn run(ctx: &Ctx) -> i32 {
         acc.evals += 1;
         let ren = t.src.replace('@', w);
         let map = [(BASE.to_string(), w.to_string())];
-        let p = Pair { space: "d", role: t.role, base: &base_src[ti], ren: &ren, map: &map, strict: Strict::Verbatim, cfg, mode: &mode, origin: "plain" };
+        let p = Pair { space: "d", role: t.role, base: &base_src[ti], ren: &ren, map: &map, strict: Strict::Verbatim, cfg, mode: &mode, origin: "plain", certified: false, note: &t.variant };
         match check_pair(&p, &base.0, &base.1, bases[ti][ci].accepted, &lists, acc) {
             Verdict::Outside => acc.count("d_outside"),
             _ => acc.count("d_checked"),
@@ -1729,13 +2076,54 @@ pub fn run(ctx: &Ctx) -> i32 {
         let ren = subst3(&ctxs[ci].src, names);
         let map: Vec<(String, String)> = (0..3).map(|i| (BASE3[i].to_string(), names[i].to_string())).collect();
         let role = if fi == 0 { format!("ctx-{}", ctxs[ci].name) } else { format!("ctx-{}+reserved", ctxs[ci].name) };
-        let p = Pair { space: "c", role: &role, base: &c_src[ci], ren: &ren, map: &map, strict: Strict::Free, cfg, mode: &mode, origin: if fi == 0 { "plain" } else { "reserved-word" } };
+        let p = Pair { space: "c", role: &role, base: &c_src[ci], ren: &ren, map: &map, strict: Strict::Free, cfg, mode: &mode, origin: if fi == 0 { "plain" } else { "reserved-word" }, certified: false, note: "" };
         match check_pair(&p, &base.0, &base.1, c_bases[ci][k].accepted, &lists, acc) {
             Verdict::Outside => acc.count("c_assignment_not_accepted"),
             _ => acc.count(&format!("c_checked|{}", ctxs[ci].name)),
         }
     });
     rep.absorb("c_suffix_collisions", rc);
+
+    // ---- space e: shadowed references
+    let shadow = shadow_cases();
+    let names_e: Vec<&str> = if ctx.quick() { vec!["x", "x_0"] } else { NAMES3.to_vec() };
+    let ne = names_e.len() as u64;
+    let radices = [ne, ne, cfgs.len() as u64, shadow.len() as u64];
+    let re = run_par(ctx, product(&radices), 16, |idx, acc| {
+        let mut d = Vec::new();
+        decode(idx, &radices, &mut d);
+        let names = [names_e[d[1] as usize], names_e[d[0] as usize]];
+        let (cfg, sc) = (cfgs[d[2] as usize], &shadow[d[3] as usize]);
+        acc.evals += 1;
+        let base = subst2(&sc.src, BASE2);
+        let ren = subst2(&sc.src, names);
+        if let Err(why) = certify(&base, &ren) {
+            acc.count(&format!("e_not_a_renaming|{}", why));
+            return;
+        }
+        let b = baseline(&base, cfg, &mode);
+        let bo = match &b.out {
+            Some(o) => o,
+            None => {
+                acc.count(&format!("e_baseline_rejected|{}|{}", sc.structure, target_name(cfg)));
+                return;
+            }
+        };
+        let role = format!("shadowed-by-{}", shadow_class(sc.structure));
+        let note = format!("{}: {}", sc.structure, sc.label);
+        let map: Vec<(String, String)> = (0..2).map(|i| (BASE2[i].to_string(), names[i].to_string())).collect();
+        let p = Pair { space: "e", role: &role, base: &base, ren: &ren, map: &map, strict: Strict::Free, cfg, mode: &mode, origin: "plain", certified: true, note: &note };
+        match check_pair(&p, &bo.0, &bo.1, b.accepted, &lists, acc) {
+            Verdict::Outside => acc.count("e_outside"),
+            v => {
+                acc.count(&format!("e_checked|{}|{}", sc.structure, if names[0] == names[1] { "shared-name" } else { "distinct-names" }));
+                if v == Verdict::Held && names[0] == names[1] && idx % 211 == 0 {
+                    acc.sample(obj(vec![("space", "e".into()), ("structure", sc.structure.into()), ("case", sc.label.as_str().into()), ("names", format!("{},{}", names[0], names[1]).as_str().into()), ("target", cfg.name().into())]));
+                }
+            }
+        }
+    });
+    rep.absorb("e_shadowed_references", re);
 
     // ---- space a: α-renaming of the core
     let core = core_programs();
@@ -1770,7 +2158,7 @@ pub fn run(ctx: &Ctx) -> i32 {
                 return;
             }
         };
-        let p = Pair { space: "a", role: "core", base: src, ren: &ren, map: &map, strict: Strict::Exact, cfg, mode: md, origin: "plain" };
+        let p = Pair { space: "a", role: "core", base: src, ren: &ren, map: &map, strict: Strict::Exact, cfg, mode: md, origin: "plain", certified: false, note: "" };
         match check_pair(&p, &base.0, &base.1, b.accepted, &lists, acc) {
             Verdict::Outside => {
                 acc.violation(Violation {
@@ -1793,6 +2181,40 @@ pub fn run(ctx: &Ctx) -> i32 {
     // ---- space b: every role × every candidate word × every target
     // quick tier: the large uniform families (type spellings, intrinsics, object types) are tried in the first template of
     // each role only, matrix spellings are thinned to four shapes; thorough: every word in every template
+    // type-use position templates: every word that is not of a large uniform family in the thorough tier; otherwise up to
+    // REPS representatives (alphabetically first, accepted by the front end as a name of that role) of every class of words
+    // (category in our HLSL list, category in our MSL list, origin)
+    let origin_of = |w: &str| -> &'static str {
+        if lists.hlsl.contains_key(w) || lists.msl.contains_key(w) {
+            "reserved-word"
+        } else if MSL_GENERATOR.contains(&w) || w.starts_with("set") || w.starts_with("o_") {
+            "generator-name"
+        } else {
+            "other-word"
+        }
+    };
+    let reps_per_class = ctx.pick(2usize, 4usize);
+    let mut reps: BTreeMap<&'static str, BTreeSet<usize>> = BTreeMap::new();
+    for (ti, t) in tpls.iter().enumerate() {
+        if !t.extra || reps.contains_key(t.role) {
+            continue;
+        }
+        let mut per_class: BTreeMap<(&str, &str, &str), usize> = BTreeMap::new();
+        let mut set = BTreeSet::new();
+        for (wi, w) in words.iter().enumerate() {
+            let class = (lists.hlsl.get(w).copied().unwrap_or("-"), lists.msl.get(w).copied().unwrap_or("-"), origin_of(w));
+            if per_class.get(&class).copied().unwrap_or(0) >= reps_per_class {
+                continue;
+            }
+            if bases[ti][0].out.is_some() && matches!(compile_out(&t.src.replace('@', w), cfgs[0], &mode), Comp::Ok(_)) {
+                *per_class.entry(class).or_insert(0) += 1;
+                set.insert(wi);
+            }
+        }
+        rep.cov(&format!("word_classes::{}", t.role), Json::Int(per_class.len() as i64));
+        rep.cov(&format!("word_class_representatives::{}", t.role), Json::Arr(set.iter().map(|wi| words[*wi].as_str().into()).collect()));
+        reps.insert(t.role, set);
+    }
     let mut b_cases: Vec<(usize, usize)> = Vec::new();
     for (wi, w) in words.iter().enumerate() {
         let cat = lists.hlsl.get(w).or(lists.msl.get(w)).copied().unwrap_or("");
@@ -1806,7 +2228,12 @@ pub fn run(ctx: &Ctx) -> i32 {
         let mut seen_roles = BTreeSet::new();
         for (ti, t) in tpls.iter().enumerate() {
             let first = seen_roles.insert(t.role);
-            if ctx.quick() && family && !first {
+            if t.extra {
+                let representative = reps.get(t.role).map(|s| s.contains(&wi)).unwrap_or(false);
+                if !(first || representative || (!ctx.quick() && !family)) {
+                    continue;
+                }
+            } else if ctx.quick() && family && !first {
                 continue;
             }
             b_cases.push((ti, wi));
@@ -1825,14 +2252,8 @@ pub fn run(ctx: &Ctx) -> i32 {
         acc.evals += 1;
         let ren = t.src.replace('@', w);
         let map = [(BASE.to_string(), w.clone())];
-        let origin = if lists.hlsl.contains_key(w) || lists.msl.contains_key(w) {
-            "reserved-word"
-        } else if MSL_GENERATOR.contains(&w.as_str()) || w.starts_with("set") || w.starts_with("o_") {
-            "generator-name"
-        } else {
-            "other-word"
-        };
-        let p = Pair { space: "b", role: t.role, base: &base_src[ti], ren: &ren, map: &map, strict: Strict::Free, cfg, mode: &mode, origin };
+        let origin = origin_of(w);
+        let p = Pair { space: "b", role: t.role, base: &base_src[ti], ren: &ren, map: &map, strict: Strict::Free, cfg, mode: &mode, origin, certified: false, note: &t.variant };
         match check_pair(&p, &base.0, &base.1, bases[ti][ci].accepted, &lists, acc) {
             Verdict::Outside => acc.count("b_word_not_accepted_in_role"),
             v => {
@@ -1876,6 +2297,8 @@ pub fn run(ctx: &Ctx) -> i32 {
     rep.cov("contexts_c", Json::Int(ctxs.len() as i64));
     rep.cov("name_families_c", Json::Int(families.len() as i64));
     rep.cov("core_programs", Json::Int(core.len() as i64));
+    rep.cov("shadow_cases_e", Json::Int(shadow.len() as i64));
+    rep.cov("name_pairs_e", Json::Int((ne * ne) as i64));
     rep.cov("targets", Json::Arr(cfgs.iter().map(|c| c.name().into()).collect()));
     rep.assumptions = vec![
         "reserved/built-in word lists are ours, transcribed conservatively from the HLSL reference (Keywords, Reserved Words, Data Types, Intrinsic Functions) and the Metal Shading Language specification (C++14 keywords, Address Spaces, function qualifiers, Scalar/Vector/Packed data types); a word we omit is not checked; names that Metal only defines inside namespace metal (textures, samplers, atomics, matrices, library functions) are not demanded".into(),
@@ -1883,6 +2306,10 @@ pub fn run(ctx: &Ctx) -> i32 {
         "space a uses fresh names without `_N` endings so that generated suffixes map homomorphically; `_N` shaped names are the subject of space c".into(),
         "member names after `.` are compared textually only; function overloads sharing a name count as a clash because the property says distinct entities never share a name".into(),
         "words the front end rejects in a role (and assignments it rejects) are outside the property".into(),
+        "space e uses the plain names x, x_0, … only (never a word built in to rssl); whether the renamed source is a renaming of the baseline is decided by our reference scoping model on the parsed sources (ordinary lexical scoping, `::` anchors at the root, a qualified name is looked up in the nearest scope that declares its first segment): cases where that model binds a use differently (e.g. `x` written relative while a nearer `x` exists, or `Na::x` where the nearest `Na` lacks `x` - rssl would continue outwards there, C++ would not) are left out and counted as e_not_a_renaming".into(),
+        "a `::` that starts a path is ignored when emitted texts are compared, so an exporter may anchor a path exactly when the names in scope require it; a use bound to the placeholder type parameter of an emitted instantiation and a use bound to the struct that placeholder is named after count as the same entity".into(),
+        "type-use positions: template structs are left out (the exporters do not implement them: todo!() panic, C08 territory); enums as buffer elements are rejected by rssl; the quick tier tries, in the type-position templates, the alphabetically first 2 accepted words of every class (category in our HLSL list, category in our MSL list, origin) instead of every word, the thorough tier every word outside the large uniform families (type spellings, intrinsics, object types) plus 4 per class".into(),
+        "a user name equal to a name the Metal generator derives from ANOTHER user name of the same program (cbuffer X → struct XType) is not tried in the type-position templates (both get suffixes; the property does not say which of them keeps the plain name)".into(),
     ];
     finish(ctx, rep)
 }
@@ -1909,6 +2336,8 @@ pub fn replay(ctx: &Ctx, body: &str) -> i32 {
     let mut cfg = Cfg::Dx;
     let mut mode = Mode::All;
     let mut strict = Strict::Free;
+    let mut certified = false;
+    let mut note = String::new();
     let mut map = Vec::new();
     for l in head.lines() {
         if let Some((k, v)) = l.split_once(": ") {
@@ -1931,6 +2360,8 @@ pub fn replay(ctx: &Ctx, body: &str) -> i32 {
                         _ => Strict::Free,
                     }
                 }
+                "certified" => certified = v == "true",
+                "note" => note = v.to_string(),
                 "map" => {
                     if let Some((a, b)) = v.split_once('=') {
                         map.push((a.to_string(), b.to_string()));
@@ -1950,7 +2381,7 @@ pub fn replay(ctx: &Ctx, body: &str) -> i32 {
         }
     };
     acc.evals += 1;
-    let p = Pair { space: &space, role: &role, base, ren, map: &map, strict, cfg, mode: &mode, origin: &origin };
+    let p = Pair { space: &space, role: &role, base, ren, map: &map, strict, cfg, mode: &mode, origin: &origin, certified, note: &note };
     let v = check_pair(&p, &out.0, &out.1, b.accepted, &lists, &mut acc);
     if v == Verdict::Outside {
         println!("replay: the renamed program is rejected by the compiler (outside the property)");
